@@ -589,7 +589,72 @@ fn schemas(ctx: &Ctx) -> Vec<Value> {
     v
 }
 
+/// Long outputs (beyond the lexeme bound of the enumeration): size-bounded open objects and arrays with
+/// bounds 10..26. Every output "k members" for k = 0..max+5 is fed byte by byte; an output the engine
+/// accepts as complete must validate.
+fn long_outputs(ctx: &Ctx) {
+    let vocab = vocab::b256();
+    let mut cases: Vec<(Value, bool)> = vec![];
+    for n in [10usize, 11, 12, 13, 14, 15, 16, 17, 19, 20, 23, 26] {
+        for m in [0usize, 1, n - 1] {
+            cases.push((json!({"type": "object", "additionalProperties": {"type": "null"}, "minProperties": m, "maxProperties": n, "x-guidance": {"whitespace_flexible": false}}), true));
+            cases.push((json!({"type": "array", "items": {"type": "null"}, "minItems": m, "maxItems": n, "x-guidance": {"whitespace_flexible": false}}), false));
+        }
+        cases.push((json!({"type": "object", "properties": {"k0": {"type": "null"}}, "required": ["k0"], "patternProperties": {"^k": {"type": "null"}}, "additionalProperties": false, "maxProperties": n, "x-guidance": {"whitespace_flexible": false}}), true));
+    }
+    cases.par_iter().for_each(|(schema, is_obj)| {
+        let f = Factory::new(&vocab, &Slices::Default).unwrap();
+        let Ok(root) = f.try_matcher(&GrammarSpec::Json(schema.clone())) else {
+            ctx.count("long_output_schemas_refused", 1);
+            return;
+        };
+        let n = schema.get("maxProperties").or(schema.get("maxItems")).and_then(|x| x.as_u64()).unwrap() as usize;
+        let val = Validator::new(schema);
+        for k in 0..=n + 5 {
+            let mut text: Vec<u8> = vec![if *is_obj { b'{' } else { b'[' }];
+            for i in 0..k {
+                if i > 0 {
+                    text.push(b',');
+                }
+                if *is_obj {
+                    text.extend_from_slice(format!("\"k{i}\":null").as_bytes());
+                } else {
+                    text.extend_from_slice(b"null");
+                }
+            }
+            text.push(if *is_obj { b'}' } else { b']' });
+            let mut m = root.clone();
+            let trie = f.env.tok_trie();
+            let mut ok = true;
+            for b in text.iter() {
+                crate::watchdog::beat();
+                if m.consume_token(trie.token_id(&[*b]).unwrap()).is_err() {
+                    ok = false;
+                    break;
+                }
+            }
+            ctx.transitions.fetch_add(text.len() as u64, Ordering::Relaxed);
+            let complete = ok && (if m.is_stopped() { m.stop_reason().is_ok() } else { m.is_accepting().unwrap_or(false) });
+            ctx.count("long_outputs_fed", 1);
+            if complete {
+                ctx.validated.fetch_add(1, Ordering::Relaxed);
+                let inst = parse_json(&text).unwrap();
+                if !val.valid(schema, &inst) {
+                    ctx.violation(Violation {
+                        check: "long_output_invalid".into(),
+                        class: "json-size-bound-exceeded".into(),
+                        signature: format!("long|{}|members={}", schema, k),
+                        detail: json!({"kind": "json_output", "schema": schema, "output": show(&text), "members": k, "reason": "accepted as complete but does not validate"}),
+                    });
+                    return;
+                }
+            }
+        }
+    });
+}
+
 pub fn run(ctx: &Ctx) -> Coverage {
+    long_outputs(ctx);
     let ss = schemas(ctx);
     let vocab = vocab::b256();
     let max_moves = ctx.tier.pick(10, 18);
@@ -661,6 +726,6 @@ pub fn run(ctx: &Ctx) -> Coverage {
         ctx.machinery_error("vacuous run: fewer than 1000 outputs enumerated");
     }
     Coverage::StateGraph {
-        rule: format!("for each of {} schemas (keyword templates + corpus): depth-first enumeration through the masks of every output with <= {max_moves} lexeme moves (iterative deepening; structural bytes, true/false/null, every string of a schema-derived pool incl. \\u-escaped spellings of declared names, prefixes, extensions, every length 0..maxLength+1, escapes, format boundary products; every number of a pool around each bound), <= {node_cap} nodes per schema; every complete output is parsed by a strict duplicate-preserving JSON parser and validated against the schema (formats asserted); plus a character-level complement per schema (compact JSON; every output over the alphabet a b é \\n \\\" \\u0061 \\u0001 \\\\ \\/ DEL 1 - : space inside strings with bodies <= {} characters, numbers <= 3 characters over 0 1 5 - . e, structural bytes and keywords, <= {} bytes, node cap {} — schemas that hit the cap are counted in char_level_schemas_capped and are covered only below it); states = DFS nodes, transitions = lexeme moves fed, traces = complete outputs validated", ss.len(), ctx.tier.pick(2, 3), ctx.tier.pick(14, 20), ctx.tier.pick(15_000, 400_000)),
+        rule: format!("for each of {} schemas (keyword templates + corpus): depth-first enumeration through the masks of every output with <= {max_moves} lexeme moves (iterative deepening; structural bytes, true/false/null, every string of a schema-derived pool incl. \\u-escaped spellings of declared names, prefixes, extensions, every length 0..maxLength+1, escapes, format boundary products; every number of a pool around each bound), <= {node_cap} nodes per schema; every complete output is parsed by a strict duplicate-preserving JSON parser and validated against the schema (formats asserted); plus a character-level complement per schema (compact JSON; every output over the alphabet a b é \\n \\\" \\u0061 \\u0001 \\\\ \\/ DEL 1 - : space inside strings with bodies <= {} characters, numbers <= 3 characters over 0 1 5 - . e, structural bytes and keywords, <= {} bytes, node cap {} — schemas that hit the cap are counted in char_level_schemas_capped and are covered only below it); states = DFS nodes, transitions = lexeme moves fed, traces = complete outputs validated; plus long outputs: open objects / arrays with size bounds 10..26, every member count 0..max+5 fed byte by byte, accepted-as-complete must validate", ss.len(), ctx.tier.pick(2, 3), ctx.tier.pick(14, 20), ctx.tier.pick(15_000, 400_000)),
     }
 }
